@@ -144,7 +144,10 @@ func (corSelf *CorDef[T]) YieldFrom(target *CorDef[T], in T) T {
 		return result
 	}
 
-	target.receive(corSelf, in)
+	if !target.receive(corSelf, in) {
+		// The target is done: nothing was sent, thus nobody is going to reply
+		return result
+	}
 	verifAt("cor.YieldFrom.sent")
 
 	// fmt.Println(corSelf, "Wait for", "result")
@@ -154,14 +157,17 @@ func (corSelf *CorDef[T]) YieldFrom(target *CorDef[T], in T) T {
 	return result
 }
 
-func (corSelf *CorDef[T]) receive(cor *CorDef[T], in T) {
+func (corSelf *CorDef[T]) receive(cor *CorDef[T], in T) bool {
+	isSent := false
 	corSelf.doCloseSafe(func() {
 		if corSelf.opCh != nil {
 			// fmt.Println(corSelf, "Wait for", "receive", cor, in)
 			corSelf.opCh <- &CorOp[T]{cor: cor, val: in}
+			isSent = true
 			// fmt.Println(corSelf, "Wait for", "receive", "done")
 		}
 	})
+	return isSent
 }
 
 // YieldFromIO Yield from a given MonadIO
@@ -212,6 +218,11 @@ func (corSelf *CorDef[T]) doCloseSafe(fn func()) {
 	}
 	verifAt("cor.doCloseSafe.checked")
 	corSelf.closedM.Lock()
+	// close() sets the flag before it takes this lock: check again now that the lock is held
+	if corSelf.IsDone() {
+		corSelf.closedM.Unlock()
+		return
+	}
 	fn()
 	corSelf.closedM.Unlock()
 }
